@@ -546,7 +546,7 @@ func (e *c11Env) apply(m *larking.Mux, op string) (res string) {
 			if sd == nil {
 				return "err"
 			}
-			if err := safeRegister(m, serviceDesc(sd, impl)); err != nil {
+			if err := safeRegister(m, serviceDesc(sd, impl), c11ImplObj(ls)); err != nil {
 				if isPanic(err) {
 					return "panic"
 				}
@@ -556,6 +556,17 @@ func (e *c11Env) apply(m *larking.Mux, op string) (res string) {
 		return "ok"
 	}
 	panic("bad op " + op)
+}
+
+// c11ImplObj: the implementation object of local implementation <ls> -- the same object every time that implementation
+// is registered (an application registers its one server value again, e.g. under a newer ServiceDesc)
+var c11implObjs = map[string]*struct{ name string }{}
+
+func c11ImplObj(ls string) interface{} {
+	if c11implObjs[ls] == nil {
+		c11implObjs[ls] = &struct{ name string }{ls}
+	}
+	return c11implObjs[ls]
 }
 
 func c11Tag(b []byte) string {
